@@ -13,6 +13,10 @@ import CueVerif.Proofs.ModzipUnzip
 import CueVerif.Proofs.ModzipExtract
 import CueVerif.Proofs.ModzipEscape
 import CueVerif.Proofs.ModzipCreate
+import CueVerif.Proofs.ModzipAgree
+import CueVerif.Proofs.ModzipTotal
+import CueVerif.Proofs.ModzipDir
+import CueVerif.Proofs.ModzipEsc
 namespace CueVerif.C15
 open CueVerif CueVerif.Modzip
 
@@ -76,6 +80,39 @@ example : unzip ⟨fun _ => false, id⟩ [] [[84]] 100
 example : (unzip ⟨fun _ => false, id⟩ [] [[84]] 100
     [{ name := sCueModModule, declared := 1, data := [1,2,3,4] }]).1.get [[84],sCueMod,sModuleCue]
     = some (.file [1,2]) := by decide
+
+/-- **The byte budget of an extraction, as one statement.**  For every archive whatsoever
+(forged declared sizes, readers that fail or deliver too much, write failures), every target,
+every prior file system and every outcome of Unzip:
+* over any set `qs` of distinct paths that did not exist before, the regular files found there
+  afterwards hold in total at most MaxZipFile + |qs| bytes (the LimitedReader cuts every entry
+  at declared+1 bytes and CheckZip bounds the sum of the declared sizes), and at most
+  MaxZipFile bytes when Unzip succeeded or no reader yields more than its declared size (the
+  container contract of archive/zip);
+* a `cue.mod/module.cue` created beneath the target holds at most MaxCUEMod+1 bytes, at most
+  MaxCUEMod under the same condition; a `LICENSE` likewise with MaxLICENSE. -/
+theorem C15_unzip_budget (U : Uni) (fs : FS) (dir : Path) (zipSize : Nat) (z : List ZEnt)
+    (h64 : ∀ e ∈ z, e.declared < 2 ^ 64) :
+    let r := unzip U fs dir zipSize z
+    let fine := r.2 = true ∨ (∀ e ∈ z, e.data.length ≤ e.declared)
+    (∀ qs : List Path, qs.Nodup → (∀ q ∈ qs, fs.get q = none) →
+      r.1.bytesAt qs ≤ maxZipFile + qs.length ∧ (fine → r.1.bytesAt qs ≤ maxZipFile)) ∧
+    (∀ c, fs.get (dir ++ [sCueMod, sModuleCue]) = none →
+      r.1.get (dir ++ [sCueMod, sModuleCue]) = some (.file c) →
+      c.length ≤ maxCUEMod + 1 ∧ (fine → c.length ≤ maxCUEMod)) ∧
+    (∀ c, fs.get (dir ++ [sLICENSE]) = none → r.1.get (dir ++ [sLICENSE]) = some (.file c) →
+      c.length ≤ maxLICENSE + 1 ∧ (fine → c.length ≤ maxLICENSE)) :=
+  ⟨fun qs hnd hnew => unzip_total U fs dir zipSize z h64 qs hnd hnew,
+   fun c hq hc => unzip_special U fs dir zipSize z h64 sCueModModule maxCUEMod
+     (Or.inl ⟨rfl, rfl⟩) c hq hc,
+   fun c hq hc => unzip_special U fs dir zipSize z h64 sLICENSE maxLICENSE
+     (Or.inr ⟨rfl, rfl⟩) c hq hc⟩
+
+-- non-vacuity / sample (a test): a forged header (declared 1, stream of 4 bytes) leaves
+-- declared+1 = 2 bytes behind and Unzip fails
+example : (unzip ⟨fun _ => false, id⟩ [] [[84]] 100
+    [{ name := sCueModModule, declared := 1, data := [1,2,3,4] }]).1.bytesAt
+      [[[84], sCueMod, sModuleCue]] = 2 := by decide
 
 /-! ### collisions and sizes -/
 
@@ -192,23 +229,134 @@ theorem C15_three_agree_partial (U : Uni) (files : List SrcFile) (z : List ZEnt)
     (checkZip U zipSize z).valid = (checkFiles U (files.map (·.ent))).1.valid :=
   ⟨(create_passes_checkZip U files z zipSize hc hz).1, (create_passes_checkZip U files z zipSize hc hz).2.1⟩
 
-/-- OPEN (believed true, not proved; exercised by correspondence only): the converse.  An
-archive without directory entries, vendored files or `.hg_archival.txt` that CheckZip accepts
-is accepted as a list of regular files of the declared sizes, with the same valid names.
+/-- The converse (was an OPEN statement): an archive that CheckZip accepts and that has no
+directory entries, vendored names or `.hg_archival.txt` — the three kinds of entry the entry
+points treat differently by design — is accepted as a list of regular files of the declared
+sizes by the file-list check (core of CheckFiles, CheckDir and Create): no error, the same
+valid names in the same order (= all entry names), nothing omitted, nothing invalid.
 (The three entry points do NOT reject the same files in general: the list check *omits*
 vendored, `.hg_archival.txt`, local-module and nested-module files which the zip check
 accepts resp. rejects; see notes/C15.md.) -/
-def C15_three_agree_stmt : Prop :=
-  ∀ (U : Uni) (zipSize : Nat) (z : List ZEnt),
-    (checkZip U zipSize z).isErr = false →
-    (∀ e ∈ z, isDirName e.name = false ∧ e.declared < 2 ^ 63 ∧
-      isVendoredPackage e.name = false ∧ e.name ≠ sHgArchival) →
+theorem C15_three_agree (U : Uni) (zipSize : Nat) (z : List ZEnt)
+    (h : (checkZip U zipSize z).isErr = false)
+    (hpl : ∀ e ∈ z, isDirName e.name = false ∧ e.declared < 2 ^ 63 ∧
+      isVendoredPackage e.name = false ∧ e.name ≠ sHgArchival) :
     let r := checkFiles U (z.map fun e => ⟨e.name, .regular, e.declared⟩)
-    r.1.isErr = false ∧ r.1.valid = (checkZip U zipSize z).valid
+    r.1.isErr = false ∧ r.1.valid = (checkZip U zipSize z).valid ∧
+    r.1.valid = z.map (·.name) ∧ r.1.omitted = [] ∧ r.1.invalid = [] :=
+  checkZip_to_checkFiles U zipSize z h hpl
+
+-- non-vacuity: a three-file archive satisfies the hypotheses
+example : (checkZip ⟨fun _ => false, id⟩ 100
+    [{ name := sCueModModule, declared := 5 }, { name := [97,47,98], declared := 7 },
+     { name := sLICENSE, declared := 9 }]).isErr = false := by decide
+-- the excluded kinds are exactly where the entry points differ (samples, tests):
+-- a directory entry `cue.mod/module.cue/` satisfies CheckZip's "module file present"
+example : (checkZip ⟨fun _ => false, id⟩ 100
+    [{ name := sCueModModule ++ [47], declared := 0 }]).isErr = false := by decide
+example : (checkFiles ⟨fun _ => false, id⟩ [⟨sCueModModule, .dir, 0⟩]).1.isErr = true := by decide
 
 -- non-vacuity of the round trip: Create accepts a two-file module
 example : (create ⟨fun _ => false, id⟩
     [⟨⟨[97,47,98], .regular, 1⟩, [7]⟩, ⟨⟨sCueModModule, .regular, 2⟩, [1,2]⟩]).isSome = true := by decide
+
+/-! ### Create with its sort, the directory walk -/
+
+/-- The comparator Create hands to slices.SortFunc counts the separators of `ap` twice, so it
+is the plain lexical order of the paths (as transcribed; documented, not a C15 violation). -/
+theorem C15_create_cmp_lexical (ap bp : Str) :
+    createCmp ap bp = if strLt ap bp then -1 else if strLt bp ap then 1 else 0 :=
+  createCmp_eq ap bp
+
+/-- Create as a whole (clone, sort, check, write), for ALL file lists: it succeeds exactly
+when the file-list check accepts the sorted list and no valid file delivers more bytes than
+Lstat declared; and whenever it succeeds the archive passes CheckZip with the same valid list,
+has one intact entry per valid file of the INPUT list (name = path, data = content), extracts
+successfully into a fresh target, and the regular files beneath the target are exactly those
+entries with exactly their data.  (`sortFiles` is one sort by the comparator; since
+slices.SortFunc is not stable the statement is also available for every other ordering:
+`C15_roundtrip` quantifies over the list as handed to checkFiles.) -/
+theorem C15_create_full (U : Uni) (files : List SrcFile) :
+    ((createFull U files).isSome = true ↔
+      ((checkFiles U ((sortFiles files).map (·.ent))).1.isErr = false ∧
+       ∀ e ∈ (checkFiles U ((sortFiles files).map (·.ent))).2,
+         (srcOf (sortFiles files) e).length ≤ e.size.toNat)) ∧
+    ∀ (z : List ZEnt) (zipSize : Nat) (fs : FS) (dir : Path),
+      createFull U files = some z → zipSize ≤ maxZipFile → FreshTarget fs dir →
+      (checkZip U zipSize z).isErr = false ∧
+      (checkZip U zipSize z).valid = (checkFiles U ((sortFiles files).map (·.ent))).1.valid ∧
+      (∀ e ∈ z, ∃ s ∈ files, e.name = s.ent.path ∧ e.data = s.content) ∧
+      (unzip U fs dir zipSize z).2 = true ∧
+      ∀ rel c, rel ≠ [] →
+        ((unzip U fs dir zipSize z).1.get (dir ++ rel) = some (.file c) ↔
+          ∃ e ∈ z, rel = splitOn 47 e.name ∧ c = e.data) := by
+  refine ⟨createFull_iff U files, ?_⟩
+  intro z zipSize fs dir hc hz hfresh
+  obtain ⟨h1, h2, -, h4, h5, h6⟩ := C15_roundtrip U (sortFiles files) z zipSize fs dir hc hz hfresh
+  refine ⟨h1, h2, ?_, h5, h6⟩
+  intro e he
+  obtain ⟨s, hs, -, hn, hd⟩ := h4 e he
+  exact ⟨s, (mem_sortFiles files s).mp hs, hn, hd⟩
+
+example : (createFull ⟨fun _ => false, id⟩
+    [⟨⟨[120,47,98], .regular, 1⟩, [7]⟩, ⟨⟨sCueModModule, .regular, 2⟩, [1,2]⟩]).map (·.map (·.name))
+    = some [sCueModModule, [120,47,98]] := by decide
+
+/-- "The verdict of the file-list check does not depend on the order of the list" is FALSE on
+model and code alike when two entries share a path: a report for a path that was already
+reported is dropped (`errPaths`), so `[module, pipe b, regular b]` is accepted (b omitted as
+"not a regular file", the "multiple entries" error swallowed) while `[module, regular b, pipe b]`
+is rejected.  Replayed on the implementation by the harness (`c15WitnessDupOrder`).  This is why
+Create's sort (not stable beyond 12 entries) is modelled by a concrete stable sort and why
+`C15_roundtrip` is stated for every ordering. -/
+def C15_checkFiles_perm_stmt : Prop :=
+  ∀ (U : Uni) (l l' : List FEnt), l.Perm l' →
+    (checkFiles U l).1.isErr = (checkFiles U l').1.isErr
+
+theorem C15_checkFiles_perm_false : ¬ C15_checkFiles_perm_stmt := by
+  intro h
+  have := h ⟨fun _ => false, id⟩
+    [⟨sCueModModule, .regular, 1⟩, ⟨[98], .other, 4⟩, ⟨[98], .regular, 7⟩]
+    [⟨sCueModModule, .regular, 1⟩, ⟨[98], .regular, 7⟩, ⟨[98], .other, 4⟩]
+    (List.Perm.cons _ (List.Perm.swap _ _ _))
+  revert this
+  decide
+
+/-- listFilesInDir, for ALL trees: whatever the walk lists is a regular file of the tree, at
+its slash path, and not below cue.mod/vendor. -/
+theorem C15_listdir_sound (root : DList) :
+    ∀ f ∈ (listFilesInDir root).files,
+      f ∈ allFilesList [] root ∧ f.kind = .regular ∧ isVendoredPackage f.path = false :=
+  walkList_sound [] root
+
+/-- CheckDir versus CheckFiles — the part that holds: on a tree without irregular files,
+vendored paths, VCS directories and nested `cue.mod` entries (other than the root's), the walk
+lists every regular file and omits nothing, so CheckDir IS CheckFiles on the tree's files. -/
+theorem C15_dir_agrees_partial (U : Uni) (root : DList) (h : plainList [] root = true) :
+    listFilesInDir root = ⟨allFilesList [] root, []⟩ ∧
+    checkDir U root = ((checkFiles U (allFilesList [] root)).1, []) :=
+  ⟨walkList_plain [] root h, checkDir_plain U root h⟩
+
+/-- The full statement "CheckDir and CheckFiles report the same valid files for the same
+regular files" is FALSE on model and code alike (known finding dir-vs-list-nested-cuemod). -/
+def C15_dir_vs_list_stmt : Prop :=
+  ∀ (U : Uni) (root : DList),
+    (checkDir U root).1.valid = (checkFiles U (allFilesList [] root)).1.valid
+
+/-- files cue.mod/module.cue, sub/x.cue and an EMPTY directory sub/cue.mod -/
+def dirWitness : DList :=
+  .cons sCueMod (.dir (.cons sModuleCue (.file 1) .nil))
+    (.cons [115,117,98] (.dir (.cons sCueMod (.dir .nil) (.cons [120,46,99,117,101] (.file 1) .nil)))
+      .nil)
+
+theorem C15_dir_vs_list_false : ¬ C15_dir_vs_list_stmt := by
+  intro h
+  have := h ⟨fun _ => false, id⟩ dirWitness
+  revert this
+  decide
+
+example : plainList [] (.cons sCueMod (.dir (.cons sModuleCue (.file 1) .nil))
+    (.cons [97] (.dir (.cons [98] (.file 3) .nil)) .nil)) = true := by decide
 
 /-! ### cache directory names (module.escapeString) -/
 
@@ -224,5 +372,42 @@ theorem C15_escape_injective (s t e : Str) (hs : escapeString s = some e)
   escape_injective s t e hs ht
 
 example : escapeString [118,49,45,82,67] = some [118,49,45,33,114,33,99] := by decide
+
+/-- The literal transcription of escapeString (two loops over the runes, `if !haveUpper
+{ return s }`) computes the byte-level model the theorems are stated for. -/
+theorem C15_escape_literal (s : Str) : escapeStringLit s = escapeString s :=
+  escapeStringLit_eq s
+
+/-- unescape (escape s) = s: "!x" ↦ "X", everything else literally (`unescapeString` is the
+specification of the encoding; cue-lang/cue has no unescape function). -/
+theorem C15_unescape_escape (s e : Str) (h : escapeString s = some e) :
+    unescapeString e = some s :=
+  unescape_escape s e h
+
+/-- EscapeVersion / EscapePath succeed only on strings that pass their guards, and then
+return escapeString's result; the extraction directory name `enc@encVer` of the module cache
+determines (path, version) — what C16 trusts — for module paths without '@' (guaranteed by
+CheckPathWithoutVersion, which is a parameter here). -/
+theorem C15_cache_dir_injective (U : Uni) (ok ok' sv sv' : Bool) (p p' v v' d : Str)
+    (hp : 64 ∉ p) (hp' : 64 ∉ p')
+    (h : cacheDirName U ok sv p v = some d) (h' : cacheDirName U ok' sv' p' v' = some d) :
+    p = p' ∧ v = v' ∧ (∀ b ∈ d, ¬ (65 ≤ b ∧ b ≤ 90)) := by
+  obtain ⟨a, b⟩ := cacheDirName_injective U ok ok' sv sv' p p' v v' d hp hp' h h'
+  refine ⟨a, b, ?_⟩
+  unfold cacheDirName at h
+  split at h
+  · rename_i ep ev h1 h2
+    cases h
+    intro x hx
+    rcases List.mem_append.mp hx with hx | hx
+    · exact escape_no_upper _ _ (escapePath_some h1).2 x hx
+    · rcases List.mem_cons.mp hx with rfl | hx
+      · omega
+      · exact escape_no_upper _ _ (escapeVersion_some h2).2.2.2 x hx
+  · cases h
+
+example : cacheDirName ⟨fun _ => false, id⟩ true true [97,46,98] [118,49,45,82]
+    = some [97,46,98,64,118,49,45,33,114] := by decide
+
 
 end CueVerif.C15
